@@ -10,8 +10,10 @@ import shutil
 import subprocess
 import sys
 
-MUT = "/tmp/mut"
+MUT = os.environ.get("SEED_MUT", "/tmp/mut")
 OUT = "/verif/seeded"
+# second wave: out/A, out/B are stored as <id>-C, <id>-D
+NAMES = {"A": "A", "B": "B"} if not os.environ.get("SEED_WAVE2") else {"A": "C", "B": "D"}
 
 
 def sh(cmd, cwd=None, timeout=900):
@@ -56,7 +58,8 @@ def verify(pid):
         patch = os.path.join(d, "patch.diff")
         if not os.path.exists(patch):
             continue
-        meta = {"id": f"{pid}-{v}", "property": pid, "repo_head": head}
+        vn = NAMES[v]
+        meta = {"id": f"{pid}-{vn}", "property": pid, "repo_head": head}
         rc, out = sh(f"git apply --check {patch}", wt)
         if rc:
             meta["status"] = "patch does not apply to current HEAD: " + out[-300:]
@@ -76,14 +79,14 @@ def verify(pid):
         confirmed = ok and ok1 and rc0 == 0 and rc1 != 0
         meta["status"] = "confirmed" if confirmed else "NOT confirmed"
         if confirmed:
-            dst = os.path.join(OUT, f"{pid}-{v}")
+            dst = os.path.join(OUT, f"{pid}-{vn}")
             os.makedirs(dst, exist_ok=True)
             for f in ("patch.diff", "demo.cpp", "run_demo.sh", "README.md"):
                 if os.path.exists(os.path.join(d, f)):
                     shutil.copy(os.path.join(d, f), dst)
             readme = open(os.path.join(d, "README.md")).read() if os.path.exists(os.path.join(d, "README.md")) else ""
-            m = {"id": f"{pid}-{v}", "breaks_property": pid, "needs_to_manifest": "see README.md (written by the sub-agent that produced the change)",
-                 "confirmed_by": "scripts/verify_seeds.py in scratch worktree /tmp/mut/%s at repo HEAD %s" % (pid, head[:7]),
+            m = {"id": f"{pid}-{vn}", "breaks_property": pid, "needs_to_manifest": "see README.md (written by the sub-agent that produced the change)",
+                 "confirmed_by": "scripts/verify_seeds.py in scratch worktree %s/%s at repo HEAD %s" % (MUT, pid, head[:7]),
                  "what_was_run": ["git apply patch.diff", "cmake --build _build && ctest --test-dir _build -j8 --timeout 900 (suite passes with the change)",
                                   "run_demo.sh / demo.cpp: exit %s with the change, exit 0 without" % rc1],
                  "detected_by": [], "readme_head": readme[:1500]}
@@ -103,7 +106,7 @@ def main():
             for m in r:
                 print(m["id"], m["status"], "| suite with change:", m.get("suite_with_change"), "demo with/without:", m.get("demo_exit_with_change"), m.get("demo_exit_without_change"), flush=True)
                 allres.append(m)
-    json.dump(allres, open("/tmp/mut/verify_results.json", "w"), indent=1)
+    json.dump(allres, open(os.path.join(MUT, "verify_results.json"), "w"), indent=1)
 
 
 if __name__ == "__main__":
